@@ -53,29 +53,46 @@ instance (cs : Bool) (r : ReqId) (f : List Nat) : Decidable (isReplyTo cs r f) :
 (completion code first). -/
 def replyData (f : List Nat) : List Nat := (f.drop 6).dropLast
 
-/-- The message embedded in a Send Message response with completion code 0. -/
-def embedded (f : List Nat) : Option (List Nat) :=
-  if 8 ≤ f.length ∧ byte f 5 = cmdSendMessage ∧ byte f 6 = 0 then some ((f.drop 7).dropLast)
+/-- Network function of Send Message (App; its response carries 07h). -/
+def netfnApp : Nat := 6
+
+/-- An intact Send Message response: long enough for header, completion code and checksum, both
+checksums verify, netFn App + 1 and command 34h.  (Command 34h alone does not make one: other
+network functions use the same number.) -/
+def IntactSendMsgRsp (f : List Nat) : Prop :=
+  8 ≤ f.length ∧ sum8 (f.take 3) = 0 ∧ sum8 (f.drop 3) = 0 ∧ byte f 1 / 4 = netfnApp + 1 ∧
+  byte f 5 = cmdSendMessage
+
+instance (f : List Nat) : Decidable (IntactSendMsgRsp f) := by unfold IntactSendMsgRsp; infer_instance
+
+/-- The message embedded in a Send Message response with completion code 0.  `strict = true`: the
+response must be intact (what the property means by a *received reply whose checksums are valid*
+when the reply arrives wrapped); `strict = false` is what the transport AS SHIPPED goes by: any frame
+whose sixth byte is 34h. -/
+def embedded (strict : Bool) (f : List Nat) : Option (List Nat) :=
+  if 8 ≤ f.length ∧ byte f 5 = cmdSendMessage ∧ byte f 6 = 0 ∧ (strict = true → IntactSendMsgRsp f)
+  then some ((f.drop 7).dropLast)
   else none
 
-/-- `Carries dg f`: frame `f` was delivered by datagram `dg` — it is `dg` itself or is
-embedded in it through any number of successful Send Message responses. -/
-inductive Carries : List Nat → List Nat → Prop
-  | self (f : List Nat) : Carries f f
-  | inner {dg g f : List Nat} : embedded dg = some g → Carries g f → Carries dg f
+/-- `Carries strict dg f`: frame `f` was delivered by datagram `dg` — it is `dg` itself or is
+embedded in it through any number of successful (and, if `strict`, intact) Send Message responses. -/
+inductive Carries (strict : Bool) : List Nat → List Nat → Prop
+  | self (f : List Nat) : Carries strict f f
+  | inner {dg g f : List Nat} : embedded strict dg = some g → Carries strict g f → Carries strict dg f
 
 /-- Executable form of `Carries` for the oracle (fuel = length; an embedded message is at
 least 8 bytes shorter, so the fuel never runs out — `carries_iff_mem_layers`). -/
-def layersN : Nat → List Nat → List (List Nat)
+def layersN (strict : Bool) : Nat → List Nat → List (List Nat)
   | 0, f => [f]
   | n + 1, f =>
-    f :: (match embedded f with
-          | some g => layersN n g
+    f :: (match embedded strict f with
+          | some g => layersN strict n g
           | none => [])
 
-def layers (f : List Nat) : List (List Nat) := layersN f.length f
+def layers (strict : Bool) (f : List Nat) : List (List Nat) := layersN strict f.length f
 
-theorem embedded_length {f g : List Nat} (h : embedded f = some g) : g.length + 8 ≤ f.length := by
+theorem embedded_length {strict : Bool} {f g : List Nat} (h : embedded strict f = some g) :
+    g.length + 8 ≤ f.length := by
   unfold embedded at h
   split at h
   · rename_i hc
@@ -85,7 +102,22 @@ theorem embedded_length {f g : List Nat} (h : embedded f = some g) : g.length + 
     omega
   · cases h
 
-theorem mem_layersN_carries (n : Nat) (f g : List Nat) (h : g ∈ layersN n f) : Carries f g := by
+/-- what is embedded in an intact response is embedded in it by the lax reading too -/
+theorem embedded_weaken {f g : List Nat} (h : embedded true f = some g) : embedded false f = some g := by
+  unfold embedded at h ⊢
+  split at h
+  · rename_i hc
+    rw [if_pos ⟨hc.1, hc.2.1, hc.2.2.1, fun hx => by cases hx⟩]
+    exact h
+  · cases h
+
+theorem Carries.weaken {a b : List Nat} (h : Carries true a b) : Carries false a b := by
+  induction h with
+  | self => exact .self _
+  | inner he _ ih => exact .inner (embedded_weaken he) ih
+
+theorem mem_layersN_carries (strict : Bool) (n : Nat) (f g : List Nat) (h : g ∈ layersN strict n f) :
+    Carries strict f g := by
   induction n generalizing f with
   | zero =>
     simp [layersN] at h
@@ -95,14 +127,14 @@ theorem mem_layersN_carries (n : Nat) (f g : List Nat) (h : g ∈ layersN n f) :
     simp only [layersN, List.mem_cons] at h
     rcases h with h | h
     · subst h; exact .self _
-    · cases he : embedded f with
+    · cases he : embedded strict f with
       | none => simp [he] at h
       | some e =>
         simp only [he] at h
         exact .inner he (ih e h)
 
-theorem carries_mem_layersN {f g : List Nat} (h : Carries f g) :
-    ∀ n, f.length ≤ n → g ∈ layersN n f := by
+theorem carries_mem_layersN {strict : Bool} {f g : List Nat} (h : Carries strict f g) :
+    ∀ n, f.length ≤ n → g ∈ layersN strict n f := by
   induction h with
   | self f =>
     intro n _
@@ -117,11 +149,12 @@ theorem carries_mem_layersN {f g : List Nat} (h : Carries f g) :
       exact Or.inr (ih n (by omega))
 
 /-- The executable oracle computes exactly the relation. -/
-theorem carries_iff_mem_layers (f g : List Nat) : Carries f g ↔ g ∈ layers f :=
-  ⟨fun h => carries_mem_layersN h _ (Nat.le_refl _), mem_layersN_carries _ _ _⟩
+theorem carries_iff_mem_layers (strict : Bool) (f g : List Nat) : Carries strict f g ↔ g ∈ layers strict f :=
+  ⟨fun h => carries_mem_layersN h _ (Nat.le_refl _), mem_layersN_carries _ _ _ _⟩
 
 /-- A frame that is not a Send Message response carries only itself. -/
-theorem carries_plain {f g : List Nat} (hp : byte f 5 ≠ cmdSendMessage) (h : Carries f g) : g = f := by
+theorem carries_plain {strict : Bool} {f g : List Nat} (hp : byte f 5 ≠ cmdSendMessage)
+    (h : Carries strict f g) : g = f := by
   cases h with
   | self => rfl
   | inner he _ =>
@@ -130,37 +163,59 @@ theorem carries_plain {f g : List Nat} (hp : byte f 5 ≠ cmdSendMessage) (h : C
     · rename_i hc; exact absurd hc.2.1 hp
     · cases he
 
-/-- Oracle: every answer the property allows for request `r`, given what was received. -/
+/-- Oracle: every answer the property allows for request `r`, given what was received (replies inside
+intact Send Message responses included, replies inside damaged ones not). -/
 def allowedAnswers (checkSeq : Bool) (r : ReqId) (received : List (List Nat)) : List (List Nat) :=
-  (received.flatMap layers).filterMap fun f =>
+  (received.flatMap (layers true)).filterMap fun f =>
     if isReplyTo checkSeq r f then some (replyData f) else none
 
 theorem mem_allowedAnswers {cs : Bool} {r : ReqId} {rc : List (List Nat)} {d : List Nat} :
     d ∈ allowedAnswers cs r rc ↔
-      ∃ dg ∈ rc, ∃ f, Carries dg f ∧ isReplyTo cs r f ∧ d = replyData f := by
+      ∃ dg ∈ rc, ∃ f, Carries true dg f ∧ isReplyTo cs r f ∧ d = replyData f := by
   simp only [allowedAnswers, List.mem_filterMap, List.mem_flatMap]
   constructor
   · rintro ⟨f, ⟨dg, hdg, hf⟩, h⟩
     split at h
     · rename_i hr
       injection h with h
-      exact ⟨dg, hdg, f, (carries_iff_mem_layers _ _).2 hf, hr, h.symm⟩
+      exact ⟨dg, hdg, f, (carries_iff_mem_layers _ _ _).2 hf, hr, h.symm⟩
     · cases h
   · rintro ⟨dg, hdg, f, hc, hr, hd⟩
-    exact ⟨f, ⟨dg, hdg, (carries_iff_mem_layers _ _).1 hc⟩, by simp [hr, hd]⟩
+    exact ⟨f, ⟨dg, hdg, (carries_iff_mem_layers _ _ _).1 hc⟩, by simp [hr, hd]⟩
 
-/-- A received frame that has nothing to do with request `r` and is not bridging traffic:
-long enough to have a header, not a Send Message response, not a reply to `r`. -/
-def Unrelated (checkSeq : Bool) (r : ReqId) (f : List Nat) : Prop :=
-  6 ≤ f.length ∧ byte f 5 ≠ cmdSendMessage ∧ ¬ isReplyTo checkSeq r f
+/-! ### frames that are not the answer
 
-instance (cs : Bool) (r : ReqId) (f : List Nat) : Decidable (Unrelated cs r f) := by
+`bridged = some s`: the request in hand is bridged, i.e. it was sent inside a Send Message request
+(netFn App, LUN 0, command 34h) that carries sequence number `s`; `none`: it was sent as it is. -/
+
+/-- the identity of the Send Message request a bridged transaction has outstanding -/
+def bridgeId (s : Nat) : ReqId := ⟨netfnApp, 0, cmdSendMessage, s⟩
+
+/-- `f` is an intact response to the Send Message request of THIS transaction -/
+def OwnSendMsgRsp (checkSeq : Bool) (bridged : Option Nat) (f : List Nat) : Prop :=
+  match bridged with
+  | none => False
+  | some s => isReplyTo checkSeq (bridgeId s) f
+
+instance (cs : Bool) (b : Option Nat) (f : List Nat) : Decidable (OwnSendMsgRsp cs b f) := by
+  unfold OwnSendMsgRsp; cases b <;> infer_instance
+
+/-- A received frame that has nothing to do with the transaction in hand: long enough to have a
+header, not a reply to request `r`, not a response to this transaction's own Send Message.  Replies
+to other commands / sequence numbers / LUNs, corrupted frames, AND Send Message responses of other
+(earlier) transactions or with a failing checksum are all of this kind. -/
+def Unrelated (checkSeq : Bool) (r : ReqId) (bridged : Option Nat) (f : List Nat) : Prop :=
+  6 ≤ f.length ∧ ¬ isReplyTo checkSeq r f ∧ ¬ OwnSendMsgRsp checkSeq bridged f
+
+instance (cs : Bool) (r : ReqId) (b : Option Nat) (f : List Nat) : Decidable (Unrelated cs r b f) := by
   unfold Unrelated; infer_instance
 
-/-- Bare acknowledgement of a Send Message request: header, completion code 00h, checksum. -/
-def BareAck (f : List Nat) : Prop :=
-  f.length = 8 ∧ byte f 5 = cmdSendMessage ∧ byte f 6 = 0
+/-- Bare acknowledgement of this transaction's Send Message request: header, completion code 00h,
+checksum — and nothing else. -/
+def BareAck (checkSeq : Bool) (bridged : Option Nat) (f : List Nat) : Prop :=
+  f.length = 8 ∧ byte f 6 = 0 ∧ OwnSendMsgRsp checkSeq bridged f
 
-instance (f : List Nat) : Decidable (BareAck f) := by unfold BareAck; infer_instance
+instance (cs : Bool) (b : Option Nat) (f : List Nat) : Decidable (BareAck cs b f) := by
+  unfold BareAck; infer_instance
 
 end PyIpmi.Spec.Attribution
